@@ -13,6 +13,16 @@ def osub (w a b : Nat) : Nat × Bool := ((a + 2 ^ w - b) % 2 ^ w, decide (a < b)
 def omul (w a b : Nat) : Nat × Bool := ((a * b) % 2 ^ w, decide (2 ^ w ≤ a * b))
 /-- number of leading zero bits of a `w`-bit word -/
 def clz (w a : Nat) : Nat := w - Nat.log2 a - (if a = 0 then 0 else 1)
+/-- number of one bits (words of at most 128 bits) -/
+def popAux : Nat → Nat → Nat
+  | 0, _ => 0
+  | f + 1, x => x % 2 + popAux f (x / 2)
+def popcnt (a : Nat) : Nat := popAux 128 a
+/-- number of trailing zero bits of a `w`-bit word (`w` for zero) -/
+def ctzAux : Nat → Nat → Nat
+  | 0, _ => 0
+  | f + 1, x => if x % 2 = 1 then 0 else ctzAux f (x / 2) + 1
+def ctz (w a : Nat) : Nat := if a = 0 then w else ctzAux w a
 /-- iterate `step` (new state, continue?) at most `fuel` times, stopping when it says so -/
 def loop {σ : Type} (step : σ → σ × Bool) : Nat → σ → σ
   | 0, s => s
